@@ -473,3 +473,13 @@ def c15(tier: str) -> int:
         (CLS_CFGS, C15_CLAUSES, conv.ev_roundtrip, {}),
         (CLS_CFGS, C15_CLAUSES, conv.ev_tree, {}),
     ])
+
+
+@check('C16')
+def c16(tier: str) -> int:
+    from . import value
+    rep = Report('C16', tier)
+    value.run(rep, tier)
+    rep.assumptions += ['two-field classes over integer field values 0..2; hash flag patterns as listed in MC_Value.tla',
+                        'generic classes subscripted with int / Any / not at all']
+    return rep.finish()
